@@ -210,7 +210,7 @@ def run(ctx):
     def sim(f):
         cfg = ('SPECIFICATION Spec\nCONSTANTS Format = "%s"\n MaxDepth = %d\n Chunks = 1\n Bounded = FALSE\nCHECK_DEADLOCK FALSE\n'
                % (f, 6 if thorough else 5))
-        return ctx.tlc('WireSim', 'sim_%s.cfg' % f, cfg_text=cfg, simulate='num=%d' % (1200 if thorough else 100), depth=10, timeout=1500, count=False)
+        return ctx.tlc('WireSim', 'sim_%s.cfg' % f, cfg_text=cfg, simulate='num=%d' % (800 if thorough else 100), depth=10, timeout=1500, count=False)
 
     sims = [f for f in formats if f in SIM_FORMATS]
     with concurrent.futures.ThreadPoolExecutor(max_workers=4) as ex:
